@@ -10,6 +10,10 @@ OpsV == {"GoNew", "Sentinel", "Errno", "New", "Newf", "NewfW", "PkgNew", "Unimpl
          "Handled", "HandledWithMessage", "HandledInDomain", "WrapWithHTTPCode",
          "WrapWithGrpcCode", "GoWrap", "PkgWithMessage", "PkgWrap", "OsPathError", "UWrap",
          "Join", "GoJoin", "GoWrap2", "Grpc"}
+\* restricted instance: status codes attached at several levels (the most recent wins,
+\* codes.Unknown included), over plain and status leaves
+OpsCode == {"GoNew", "New", "GrpcStatus", "Wrap", "WithHint", "WrapWithGrpcCode", "WrapWithHTTPCode", "Grpc"}
+ShapesOne == {<<"w1">>}
 ShapesV == {<<"w1">>, <<"w1", "SEP", "w2">>, <<"w2", "NL", "w1">>, <<"L_big">>, <<"w1", "L_big">>}
 Shapes2V == {<<"w2">>}
 =============================================================================
